@@ -144,6 +144,17 @@ def run(tier):
     b2["out"]["v"][1]["nodes"] = [2]                           # as if the shared atom belonged to the first fragment only
     _expect("graph bookkeeping: key of the shared atom after sorting corrupted", g0, graphops._one(b1), "X_GraphOps_Nodes", results)
     _expect("graph bookkeeping: fragment of the shared atom dropped from annotate", g0, graphops._one(b2), "X_GraphOps_Returned", results)
+    # ---- OpenBonds (spec -> code): one expected node list / one expected complement corrupted ----------
+    from .props import openbonds
+    ob = {"mol": [[["$", "", 1], ["<", "A", 1]], [["$", "", 1]]],
+          "views": [{"targets": [1, 2], "open": [[["$", "", 1], [1, 2]], [["<", "A", 1], [1]]]}]}
+    ob1 = copy.deepcopy(ob)
+    ob1["views"][0]["open"][0][1] = [1]                         # as if only the first carrier of '$1' were listed
+    _expect("open bonds: second carrier of a descriptor dropped", openbonds._mol((0, ob)), openbonds._mol((0, ob1)), "X_OpenBonds_Dict", results)
+    cp = {"d": ["<", "A", 1], "E": [[">", "A", 1], ["$", "", 1]], "res": {"ok": True, "out": [[">", "A", 1]]}}
+    cp1 = copy.deepcopy(cp)
+    cp1["res"]["out"] = [["<", "A", 1]]                         # as if '<' paired with itself
+    _expect("open bonds: complement of '<A1' corrupted", openbonds._compl(cp), openbonds._compl(cp1), "X_OpenBonds_Complementary", results)
     # ---- (b) vacuity: every action of every design model is taken at least once (TLC -coverage 1) ----
     import re
     from . import mc
@@ -152,6 +163,7 @@ def run(tier):
               ("ResolverAPI", dict(Inputs="{1, 4}", Levels="Lv", MaxObjs=2, MaxEvents=4, Ctors="CtorsAll", OtherKinds="OthersQ"), "Spec"),
               ("Writer", dict(MaxN=3, Orders="Ord012"), "Spec"),
               ("GraphOps", dict(Templates="TplQ", MaxOps=4, MaxNodes=6, MaxMerges=3), "Spec"),
+              ("OpenBonds", dict(Descs="DescsMol", CDescs="DescsQ", MaxNodes=2, MaxPerNode=2, MaxSteps=3), "Spec"),
               ("CGGraphMC", dict(MaxLen=5, NodeToks="Nodes2", SymToks="SymQuick", RingToks="Rings1", MultCounts="Mult2",
                                  MaxDepth=1, MaxOpen=1, EmitAll="FALSE"), "Spec"),
               ("FragTextMC", dict(MaxLen=3, AtomToks="AtomsQ", DescToks="DescQ", SymToks="SymsQ", RingToks="RingsQ",
